@@ -103,6 +103,10 @@ func (s *Server) ServeConn(c net.Conn) error {
 		sc.logger = logger
 	}
 
+	if verifOn {
+		vSrvInit(sc)
+	}
+
 	sc.enc.Reset()
 	sc.dec.Reset()
 
